@@ -386,6 +386,9 @@ class kFlowDecomp(pathmodel.AbstractPathModelDAG):
         
 
         start_time = time.perf_counter()
+        # The constraints are used below, before the base class gets to validate them
+        if self.subpath_constraints:
+            self._check_valid_subpath_constraints()
         (paths, weights) = self.G.decompose_using_max_bottleneck(self.flow_attr)
 
         # Check if the greedy decomposition satisfies the subpath constraints
